@@ -39,6 +39,11 @@ the Violation keys of the replays written (replay = scenario + fault + framework
         @wamp.error to a class with a compatible constructor, ERROR ciphertext byte 0 xor 1, twisted/json: caller gets
         MappedErr1() instead of ApplicationError(ENC_DECRYPT_ERROR)); exit 0 on the unchanged tree. Missed before the error
         direction was run with caller-mapped error URIs (model: onErrorMapped, theorems *_rejected_mapped).
+  R1-R3 (2026-09-23, after the U1 repairs; the model follows the repaired code) on the unrepaired tree the check reports
+        yield-sent-in-clear-after-encode-failure (cbor), yield-encode-failure:error-reply-quotes-clear-result (json/msgpack/
+        ubjson), error-reply-in-clear:error-uri-not-covered-by-key, error-path:encode-raises:no-reply — each with a replay
+        that exits 0 on the repaired tree. A clear reply to an encrypted INVOCATION is accepted only as ONE text without
+        marker and without kwargs (`text_only`).
   H1  harmless: `if not (proc == decrypted_proc)`                                        -> exit 0, silent
   H2  harmless: `return key.originator_box if is_originating else key.responder_box`     -> exit 0, silent
 """
@@ -72,6 +77,9 @@ TRUSTED = [
 ASSUMPTIONS = [
     "the router passes payload/enc_algo/enc_serializer/enc_key through untouched unless it is the injected fault",
     "marker strings identify the clear payload in serialized bytes (all four serializers store strings as UTF-8)",
+    "the texts of the ERROR replies that stand in for a payload are independent of the payload: two are literal (procedure / "
+    "error URI only); the last-resort one quotes str() of the exception the payload codec raised, which for the JSON inner "
+    "envelope names the offending type, not a value (checked with markers on the generated inputs, not proved)",
 ]
 MANIFEST_ENTRY = {
     "technique": "Lean 4 theorems relative to abstract AEAD laws + differential tie through two real sessions with real NaCl "
@@ -82,16 +90,24 @@ MANIFEST_ENTRY = {
             "receiver's key is rejected with ENC_DECRYPT_ERROR (handler/endpoint not invoked, call fails), a genuine "
             "ciphertext under another envelope URI with ENC_TRUSTED_URI_MISMATCH, another key with ENC_DECRYPT_ERROR; a "
             "decoded payload is always one sealed for this very URI; _get_box selects the longest registered prefix, else "
-            "the default key. 'No clear payload on the wire' is proved for publish/call and, for YIELD/ERROR, only under "
-            "'encode succeeds and a key covers the URI used for the lookup' — outside that it is false on the real code "
-            "(U1, replayed, known findings). The model is tied to the code by running every scenario through two real "
+            "the default key. No clear payload on the wire is proved in full, with no hypothesis: publish/call to a covered URI "
+            "are sealed or raise; an encrypted INVOCATION is answered by a sealed YIELD or, when the result cannot be sealed, "
+            "by an ERROR holding a fixed text (never the result); its ERROR reply is sealed, or - when no key covers the "
+            "ERROR URI - keeps the URI and holds a fixed text instead of the arguments of the exception; when building the "
+            "ERROR fails a last-resort ERROR with a fixed text is sent, so the call never stays pending. The model is tied to "
+            "the code by running every scenario through two real "
             "sessions with real NaCl key rings on both frameworks and four serializers, altering every byte position of each "
-            "ciphertext, swapping envelope URIs and keys, and searching all serialized bytes for the clear payload.",
+            "ciphertext, swapping envelope URIs and keys, and searching all serialized bytes for the clear payload; a clear "
+            "reply to an encrypted invocation must consist of one text without payload markers and no kwargs.",
     "note": "Level: proof relative to the AEAD hypotheses; NaCl (PyNaCl/libsodium), pytrie and the serializers are trusted, "
-            "not verified. The hand model mirrors the code (checked by the differential run only). Known findings: plain "
-            "YIELD after encode failure; ERROR replies keyed by the error URI travel in clear with per-prefix keys; encode "
-            "failure in the error path leaves the call without reply. Not covered by the property: reflection/replay of a "
-            "genuine ciphertext (Box is symmetric) — shown as an example in the proof file.",
+            "not verified. The hand model mirrors the code (checked by the differential run only). No open finding: the U1 "
+            "defects (plain YIELD after an encode failure, fallback ERROR quoting the result, ERROR replies in clear when no "
+            "key covers the error URI, no reply when encoding the ERROR fails) are repaired and their inputs run in every "
+            "tier. The fixed texts are modelled as values the reply functions cannot compute from the payload; that the "
+            "exception text of the inner codec quoted in the last-resort ERROR names no payload value is an assumption, "
+            "checked on the generated inputs only. ERROR replies are still keyed by the error URI (the caller selects the "
+            "key the same way); sealing them under the key of the procedure needs a protocol change. Not covered by the "
+            "property: reflection/replay of a genuine ciphertext (Box is symmetric) — shown as an example in the proof file.",
 }
 
 # --------------------------------------------------------------------------- rings
@@ -198,11 +214,17 @@ def gen_scenarios(ctx, plen_guess=140):
                     scs.append(sc)
                     if d == "error" and name == "prefix":
                         scs.append(dict(sc, error_uri="com.other.error"))
-    # the same unserialisable result on the serializers that cannot carry it: only the oracle applies
+    # the same unserialisable result / exception arguments on the serializers that cannot carry the value either: the reply
+    # is an ERROR with a fixed text, which every serializer carries
     for ser in ("json", "msgpack", "ubjson"):
         ra, rb, uris, _ = LAYOUTS["default-both"]
-        scs.append({"layout": "default-both", "dir": "yield", "ringA": ra, "ringB": rb, "uri": uris[0][0], "uri2": uris[0][1],
-                    "bad": True, "tampers": [["none"]], "ser": ser, "oracle_only": True})
+        for d in ("yield", "error"):
+            sc = {"layout": "default-both", "dir": d, "ringA": ra, "ringB": rb, "uri": uris[0][0], "uri2": uris[0][1],
+                  "bad": True, "tampers": [["none"]], "ser": ser}
+            if d == "error":
+                sc["error_kind"] = "app"
+                sc["error_uri"] = ERROR_URIS["default-both"][0]
+            scs.append(sc)
     return scs
 
 
@@ -509,6 +531,13 @@ def run(ctx):
     return res
 
 
+def text_only(rep):
+    """a clear reply whose only content is one text without any marker"""
+    a, k = rep.get("args"), rep.get("kwargs")
+    return (not rep["sealed"] and k == {} and isinstance(a, list) and len(a) == 1 and isinstance(a[0], str)
+            and not any(mk in a[0] for mk in (MARK_A, MARK_K, MARK_R, MARK_E)))
+
+
 def oracle(sc, t, obs, box):
     """the Spec statements evaluated on one observed exchange -> [(key, what)]"""
     out = []
@@ -555,10 +584,18 @@ def oracle(sc, t, obs, box):
     rep = obs["reply"]
     if d == "yield":
         if sc["bad"]:
+            # the result cannot be sealed: it must not leave at all — an ERROR holding a text and nothing of the result
             if rep and rep["kind"] == "Yield" and not rep["sealed"]:
                 out.append(("yield-sent-in-clear-after-encode-failure", f"reply {rep}, leaks {obs['leaks']}"))
             elif obs["leaks"]:
                 out.append(("yield-encode-failure:error-reply-quotes-clear-result", f"reply {rep}, leaks {obs['leaks']}"))
+            elif rep is None:
+                out.append(("yield-encode-failure:no-reply", f"neither YIELD nor ERROR was sent, call outcome {oc}"))
+            elif rep["kind"] == "Error":
+                if not text_only(rep):
+                    out.append(("yield-encode-failure:error-reply-carries-arguments", f"reply {rep}"))
+                if not (oc and oc[0] == "err"):
+                    out.append(("yield-encode-failure:call-did-not-fail", f"outcome {oc}"))
             return out
         if t[0] == "none":
             if not (oc and oc[0] == "ok" and oc[1]["results"] == [MARK_R]):
@@ -573,10 +610,16 @@ def oracle(sc, t, obs, box):
             out.append(("error-path:encode-raises:no-reply", f"no ERROR was sent, call outcome {oc}"))
             return out
         if not rep["sealed"]:
+            # a clear ERROR answering an encrypted INVOCATION may hold a text and nothing of the exception: no args beyond
+            # that text, no kwargs (their names are payload too), no marker anywhere in its octets
             if kBe == "-":
-                out.append(("error-reply-in-clear:error-uri-not-covered-by-key", f"ERROR {rep['error']} clear although the INVOCATION was encrypted; leaks {obs['leaks']}"))
-            else:
-                out.append(("error:reply-clear-although-key-covers-error-uri", f"ERROR {rep}"))
+                if not text_only(rep) or obs["leaks"]:
+                    out.append(("error-reply-in-clear:error-uri-not-covered-by-key", f"ERROR {rep} clear although the INVOCATION was encrypted; leaks {obs['leaks']}"))
+            elif not sc["bad"] or not text_only(rep) or obs["leaks"]:
+                # a key covers the ERROR URI: only arguments the inner envelope cannot hold excuse a clear (text) reply
+                out.append(("error:reply-clear-although-key-covers-error-uri", f"ERROR {rep}; leaks {obs['leaks']}"))
+            if not (oc and oc[0] == "err"):
+                out.append(("error:call-did-not-fail", f"outcome {oc}"))
             return out
         env = (sc.get("error_uri2") or sc["uri2"]) if t[0] == "swap" else eu
         kAe = box(sc["ringA"], "o", env)
